@@ -1356,6 +1356,13 @@ def r_core_map(ctx):
                 loopvar = par.target.id
             ok = loopvar is not None and arg == f"{loopvar}.name" and "constraints" in ast.unparse(par.iter)
             first = ast.unparse(node.args[0])
+            if isinstance(node.args[0], ast.Name) and par is not None:
+                # a local the assertions were read into just before: assigned once in this function
+                binds = [a_ for a_ in ast.walk(fn) if isinstance(a_, ast.Assign) and any(isinstance(t_, ast.Name) and t_.id == first for t_ in a_.targets)]
+                others = [n_ for n_ in ast.walk(fn) if isinstance(n_, (ast.AugAssign, ast.For, ast.NamedExpr, ast.comprehension))
+                          and any(isinstance(x_, ast.Name) and x_.id == first and isinstance(x_.ctx, ast.Store) for x_ in ast.walk(getattr(n_, "target", n_)))]
+                if len(binds) == 1 and not others and any(b_ is binds[0] for b_ in ast.walk(par)):
+                    first = ast.unparse(binds[0].value)
             ok = ok and first == f"{loopvar}.get_z3_assertions()"
             if ok:
                 ctx.ok("R-CORE-MAP", "initialize: the constraint drain labels each constraint's assertions with that constraint's name")
